@@ -202,10 +202,49 @@ func (a *FsmA) ctxIndexField() string {
 			n++
 		}
 	}
-	if n != 1 {
-		return ""
+	if n == 1 {
+		return name
 	}
-	return name
+	// several uint64 fields (bookkeeping added next to the index): the index is the one the parse
+	// function stores from the entry's Index on every path and the commit function reads
+	var good []string
+	for i := 0; i < st.NumFields(); i++ {
+		b, ok := st.Field(i).Type().(*types.Basic)
+		if !ok || b.Kind() != types.Uint64 || a.ParseFn == nil || a.CommitFn == nil {
+			continue
+		}
+		f := st.Field(i).Name()
+		isStore := func(in ssa.Instruction) bool {
+			s, ok := in.(*ssa.Store)
+			if !ok {
+				return false
+			}
+			fa, ok := s.Addr.(*ssa.FieldAddr)
+			return ok && types.Identical(deref(fa.X.Type()), a.Ctx) && fieldAddrName(fa) == f && strings.HasSuffix(Expr(s.Val), ".Index")
+		}
+		stored := false
+		eachInstr(a.ParseFn, func(in ssa.Instruction) {
+			if isStore(in) {
+				stored = true
+			}
+		})
+		if !stored || (&Walk{Barrier: isStore, Target: isAnyReturn}).Find(entry(a.ParseFn)) != nil {
+			continue
+		}
+		read := false
+		eachInstr(a.CommitFn, func(in ssa.Instruction) {
+			if fa, ok := in.(*ssa.FieldAddr); ok && types.Identical(deref(fa.X.Type()), a.Ctx) && fieldAddrName(fa) == f {
+				read = true
+			}
+		})
+		if read {
+			good = append(good, f)
+		}
+	}
+	if len(good) == 1 {
+		return good[0]
+	}
+	return ""
 }
 
 // ctxLeaderField: the *uint64 field of the context.
